@@ -128,6 +128,7 @@ inductive Obs where
   | got (t v : Nat)                             -- the receiver resolved to `Ok(v)`
   | canc (t : Nat)                              -- the receiver resolved to `Err(Canceled)`
   | hang (t : Nat)                              -- the receiver did not resolve (watchdog)
+  | wake (t : Nat)                              -- a foreign thread called `wake()` on a waker of task `t`
   | die (w p : Nat)                             -- a waker panicked on worker `w`'s thread
   | joinCall (fallback : Bool)                  -- `join` called; `fallback`: the harness had saturated the pool
   | joinRet (r : Option Nat)
@@ -277,6 +278,7 @@ def Acc.stepObs (a : Acc) : Obs → Acc
     | .cancelled => a
     | .value _ => a.fail s!"cancelled-after-completion {t}"
     | _ => a.fail s!"cancel-unexplained {t}"
+  | .wake t => (a.ensureDispatched t).fire (.remoteWake t) s!"wake-of-unknown-task {t}"
   | .hang t => a.fail s!"receiver-hang {t}"
   | .alive n => if aliveWorkers a.s = n then a else a.fail s!"worker-alive-after-join {n}"
   | .problem sig => a.fail s!"problem {sig}"
